@@ -2729,22 +2729,19 @@ handleMessage(MasterConnection self, uint8_t* buffer, int msgSize)
             {
                 DEBUG_PRINT("CS104 SLAVE: Send STOPDT_CON\n");
 
+#if (CONFIG_USE_SEMAPHORES == 1)
+                Semaphore_wait(self->stateLock);
+#endif
+
                 self->state = M_CON_STATE_STOPPED;
 
-                if (writeToSocket(self, STOPDT_CON_MSG, STOPDT_CON_MSG_SIZE) < 0)
-                {
-                    #if (CONFIG_USE_SEMAPHORES == 1)
-                                Semaphore_post(self->stateLock);
-                    #endif
-
-                    return false;
-                }
-
-            }
-
 #if (CONFIG_USE_SEMAPHORES == 1)
-            Semaphore_post(self->stateLock);
+                Semaphore_post(self->stateLock);
 #endif
+
+                if (writeToSocket(self, STOPDT_CON_MSG, STOPDT_CON_MSG_SIZE) < 0)
+                    return false;
+            }
         }
 
         /* Check for TESTFR_CON message */
